@@ -75,11 +75,14 @@ type Call struct {
 // Prog is one generated contract.
 type Prog struct {
 	Structs []StructDef `json:"structs,omitempty"`
-	Globals []Global    `json:"globals,omitempty"`
-	Inits   [][]*Node   `json:"inits,omitempty"`
-	Funcs   []Func      `json:"funcs"`
-	Calls   []Call      `json:"calls"`
-	Feat    []string    `json:"feat,omitempty"` // constructs the generator used (class labels)
+	// FuncStructs: struct types with a field of function type (used by one statement shape only, never as the type
+	// of a tracked variable).
+	FuncStructs []StructDef `json:"func_structs,omitempty"`
+	Globals     []Global    `json:"globals,omitempty"`
+	Inits       [][]*Node   `json:"inits,omitempty"`
+	Funcs       []Func      `json:"funcs"`
+	Calls       []Call      `json:"calls"`
+	Feat        []string    `json:"feat,omitempty"` // constructs the generator used (class labels)
 }
 
 // Case is a batch of programs built by one invocation of the Go toolchain.
@@ -570,6 +573,16 @@ func (pr *Prog) Source(pkg string) string {
 				p.line("%s", f.Type)
 				continue
 			}
+			p.line("%s %s", f.Name, f.Type)
+		}
+		p.ind--
+		p.line("}")
+		p.line("")
+	}
+	for _, s := range pr.FuncStructs {
+		p.line("type %s struct {", s.Name)
+		p.ind++
+		for _, f := range s.Fields {
 			p.line("%s %s", f.Name, f.Type)
 		}
 		p.ind--
